@@ -452,6 +452,27 @@ def xml_labels_ok(r, t):
     return ok and all(xml_labels_ok(a, b) for a, b in zip(r.children, t.children))
 
 
+def first_rule_mismatch(r, which):
+    """C12, reader clause: a binary node read from a file that records no usable rule is labelled with the FIRST result of the grammar that derives its category
+    from its children (label, symbol and head direction of that very result), and with the unknown rule when none does.  Returns a description of the first node
+    that is not, else None."""
+    if r.is_leaf:
+        return None
+    if not r.is_unary:
+        G = T.en if which == 'en' else T.ja
+        l, rr = r.children
+        alts = [x for x in G.apply_binary_rules(l.cat, rr.cat) if x.cat == r.cat]
+        want = (alts[0].op_string, alts[0].op_symbol, bool(alts[0].head_is_left)) if alts else ('unk', '<unk>', True)
+        got = (r.op_string, r.op_symbol, bool(r.head_is_left))
+        if got != want:
+            return dict(node=str(r.cat), left=str(l.cat), right=str(rr.cat), got=list(got), want=list(want))
+    for c in r.children:
+        m = first_rule_mismatch(c, which)
+        if m is not None:
+            return m
+    return None
+
+
 def decode_auto_default(t):
     """AUTO line with the default POS of the conll printer ('_' when a token has no pos)"""
     def rec(n):
@@ -638,6 +659,9 @@ def check_xml(which, nbest_batch, grammar_based, ctx):
                         elif not xml_labels_ok(rr.tree, t):
                             fail('C15', 'rule labels read from C&C XML differ from the ones written', got=repr(tree_signature(rr.tree, tokens=False, heads=False))[:400],
                                  want=repr(tree_signature(t, tokens=False, heads=False))[:400], **ctx)
+                        mm = first_rule_mismatch(rr.tree, which)
+                        if mm is not None:
+                            fail('C12', 'node read from C&C XML is not labelled with the first grammar result that derives it', **dict(ctx, **mm))
                 except Exception as e:   # noqa
                     fail('C15', 'read_xml raises on XML depccg wrote', error=f'{type(e).__name__}: {e}'[:200], **ctx)
         except Exception as e:       # noqa
